@@ -617,7 +617,6 @@ def loopRead (s : S) (item : RxItem) (reconnectOk : Bool := true) : S × HRes :=
   match s.sock with
   | none => (s, .rc rcNoConn)
   | some _ =>
-    let maxPackets := max 1 (s.out.length + s.inm.length)
     match item with
     | .none => (s, .rc rcSuccess)
     | .eof | .err =>
@@ -632,12 +631,12 @@ def loopRead (s : S) (item : RxItem) (reconnectOk : Bool := true) : S × HRes :=
           let (s, rc) := s.loopRcHandle rc
           (s, .rc rc)
         else if rc = rcAgain then (s, .rc rcSuccess)
-        else if maxPackets > 1 then
-          -- second iteration of the for loop: socket gone -> NO_CONN, else recv would block -> SUCCESS
+        else
+          -- next iteration of the for loop, or its end: socket gone (the packet closed the connection) -> NO_CONN,
+          -- else recv would block / the packet budget is used up -> SUCCESS
           (match s.sock with
            | none => (s, .rc rcNoConn)
            | some _ => (s, .rc rcSuccess))
-        else (s, .rc rcSuccess)
 
 /-- `_check_keepalive` -/
 def checkKeepalive (s : S) : S :=
